@@ -41,4 +41,5 @@ def main() -> None:
     net.finish("bounded", "random statement lists of 1..7 over 13 IRIs/7 lexical forms/quoted depth<=2, tables sized k..k+2 (prefix table also 0), frame sizes {1,2,3,4,250}, 3 physical types, delimited and non-delimited flat",
                "each case = (physical type, preset, frame size, framing, statement list); distinct by hash of the whole case; all are non-trivial (>=1 statement)")
 if __name__ == "__main__":
-    main()
+    from common import run_main
+    run_main(main, "C01")
